@@ -75,6 +75,9 @@ pub enum Cancel {
     ClientDrop { after_chunks: usize },
     /// the server handler drops its handles after reading the head
     ServerDrop,
+    /// early response (RFC 9113 8.1): the server handler drops the request body unread, sends its complete response and
+    /// lets go of everything; if the request has not ended by then h2 owes RST_STREAM(NO_ERROR) after the response
+    ServerEarlyResponse,
 }
 
 #[derive(Clone, Debug, PartialEq, Eq, Hash)]
@@ -573,6 +576,13 @@ async fn server_stream(k: usize, spec: StreamSpec, req: Request<RecvStream>, mut
         log.push(side, k, Dir::Resp, true, Ev::Dropped);
         return;
     }
+    let early = spec.cancel == Cancel::ServerEarlyResponse;
+    let body_rs = if early {
+        drop(body_rs);
+        None
+    } else {
+        Some(body_rs)
+    };
     // the response is produced by its own task so that it interleaves with reading the request
     let log2 = log.clone();
     let spec2 = spec.clone();
@@ -638,8 +648,15 @@ async fn server_stream(k: usize, spec: StreamSpec, req: Request<RecvStream>, mut
             }
             Err(e) => log.push(side, k, Dir::Resp, true, Ev::Err(format!("send_response: {}", err_text(&e)))),
         }
+        if early {
+            // SendResponse and SendStream are gone now, the RecvStream went first: no handle is left
+            drop(respond);
+            log.push(side, k, Dir::Resp, true, Ev::Dropped);
+        }
     });
-    recv_body(side, k, Dir::Req, body_rs, spec.s_recv.clone(), log).await;
+    if let Some(body_rs) = body_rs {
+        recv_body(side, k, Dir::Req, body_rs, spec.s_recv.clone(), log).await;
+    }
 }
 
 // ---------------------------------------------------------------------------------------------
